@@ -423,3 +423,42 @@ package shwap
 //@   loop 1: invariant forall j int :: 0 <= j && j <= rangeindex ==> rngdata.Shares[j] == nd[j].Shares
 //@   loop 1: invariant rangeindex >= 0 ==> rngdata.FirstIncompleteRowProof == nd[0].Proof
 //@   loop 1: invariant rangeindex >= 1 ==> rngdata.LastIncompleteRowProof == nd[rangeindex].Proof
+
+// ---------------------------------------------------------------------------------------------
+// C02: verified namespace data is complete.
+//
+// A-NMT (completeness): nmtNsVerified(proof, ns, shares, root) is the NMT namespace verification: for
+// the committed leaves of that root it holds only if shares are *all* the leaves of ns in order (an
+// absence proof only if there are none and ns is inside the root's range).
+//@ pure func nmtNsVerified(proof nmt.Proof, nid []byte, shares []libshare.Share, root []byte) bool
+//@ pure func outsideOf(ns libshare.Namespace, rowRoot []byte) bool = nsLt(ns, nsOfBytes(rowRoot[0:29])) || !nsLe(ns, nsOfBytes(rowRoot[29:58]))
+//@ pure func nsOfBytes(b []byte) libshare.Namespace
+//@ pure func nsLt(a libshare.Namespace, b libshare.Namespace) bool
+//@ pure func nsLe(a libshare.Namespace, b libshare.Namespace) bool
+
+// The leaf construction loop (namespace prefix + share bytes per share) is not verified: trusted.
+//@ func (RowNamespaceData).verifyInclusion
+//@   property C02
+//@   trusted
+//@   requires rnd.Proof != nil
+//@   ensures result ==> nmtNsVerified(deref(rnd.Proof), namespace.data, rnd.Shares, rowRoot)
+
+// One row: shares present <=> inclusion proof, no shares <=> absence proof; the namespace is inside the
+// row's range; the NMT namespace proof verifies against *this* row's root.
+//@ func (RowNamespaceData).Verify
+//@   property C02 C01
+//@   ensures err == nil ==> rnd.Proof != nil && (len(rnd.Shares) == 0 <==> len(deref(rnd.Proof).leafHash) > 0)
+//@   ensures err == nil ==> !outsideOf(namespace, roots.RowRoots[rowIdx])
+//@   ensures err == nil ==> nmtNsVerified(deref(rnd.Proof), namespace.data, rnd.Shares, roots.RowRoots[rowIdx])
+
+// The whole namespace: exactly one entry per row that can contain the namespace (derived locally from
+// the trusted row roots), in row order, each verified against its own row root.
+//@ func (NamespaceData).Verify
+//@   property C02
+//@   requires root != nil
+//@   checks err == nil ==> len(nd) == len(rowIdxs)
+//@   checks err == nil ==> forall i int :: 0 <= i && i < len(nd) ==> nd[i].Proof != nil && (len(nd[i].Shares) == 0 <==> len(deref(nd[i].Proof).leafHash) > 0) && nmtNsVerified(deref(nd[i].Proof), namespace.data, nd[i].Shares, root.RowRoots[rowIdxs[i]])
+//@   checks err == nil ==> forall r int :: 0 <= r && r < len(root.RowRoots) && !outsideOf(namespace, root.RowRoots[r]) ==> (exists k int :: 0 <= k && k < len(nd) && rowIdxs[k] == r)
+//@   checks err == nil ==> forall k int, l int :: 0 <= k && k < l && l < len(nd) ==> rowIdxs[k] < rowIdxs[l]
+//@   loop 1: invariant -1 <= rangeindex && rangeindex < len(nd) && len(nd) == len(rowIdxs)
+//@   loop 1: invariant forall j int :: 0 <= j && j <= rangeindex ==> nd[j].Proof != nil && (len(nd[j].Shares) == 0 <==> len(deref(nd[j].Proof).leafHash) > 0) && nmtNsVerified(deref(nd[j].Proof), namespace.data, nd[j].Shares, root.RowRoots[rowIdxs[j]])
